@@ -1145,10 +1145,16 @@ class _FakeOs:
         return list(self._listing)
 
 
+class _Img(str):
+    """Stands in for a decoded frame where only its identity matters: a string (the path, or the text of the frame file) with the
+    one attribute image code looks at."""
+    shape = (1, 1, 3)
+
+
 class _FakeImageio:
     @staticmethod
     def imread(path):
-        return path
+        return _Img(path)
 
 
 def load_order(names):
@@ -1289,7 +1295,7 @@ class ImplViz(ImplGen):
             @staticmethod
             def imread(path):
                 with open(path, encoding="utf-8") as fh:
-                    return fh.read()
+                    return _Img(fh.read())
 
             @staticmethod
             def mimsave(path, images, **kwargs):
